@@ -67,6 +67,24 @@ NEEDS.update({
  'C03-4': ("C03","two `||` alternatives: the tag in one, the bounds met by the other (`>=1.0.0 || 2.0.0-beta.1` with 2.0.0-beta.2)",""),
  'C04-4': ("C04","max/min_satisfying with several satisfying prereleases of one triple in an unlucky list order","caught by C14 from the start; by C04 itself after adding the resolver entry points to its list sweep"),
  'C05-4': ("C05","serde Deserialize from a non-borrowing source (escape sequences in the JSON text, from_value, from_reader); feature `serde` only","caught by C05 (`serde` clause on inputs with a tab) from the start; the from_value / from_reader observation was added afterwards; the demo needs `--features serde`"),
+ 'C01-6': ("C01","a caret over major 0, minor literally 0 and no concrete patch (`^0.0`, `^0.0.x`): merged into the `^0` arm",""),
+ 'C02-6': ("C02","an inclusive upper bound first and an exclusive upper bound at the same version second (`<=1.2.3 <1.2.3`): the one equal-version pair of Bound::cmp the repository's tests do not pin (found independently three times: C02-6 = C08-6 = C15-6)",""),
+ 'C03-6': ("C03","a tagged upper bound and a prerelease of a LOWER major with the same minor and patch (`<2.0.0-rc.1` with 1.0.0-beta): `<=` for `==` in the upper-bound gate",""),
+ 'C04-6': ("C04","min_satisfying over alternatives written in descending order (`^2.0.0 || ^1.0.0`): first matching alternative's minimum instead of the global one",""),
+ 'C05-6': ("C05","a first build identifier starting with `-` (`1.2.3+-`, `1.2.3+-x`): build parsed with the prerelease parser, whose optional hyphen swallows it",""),
+ 'C06-6': ("C06","an over-long input with a newline at byte p < 256 and a multi-byte character covering byte 256-p, then `location()` (first instead of last newline)",""),
+ 'C07-6': ("C07","an overlap whose bounds hold only prereleases no bound anchors (`>1.2.3` with `<1.2.4`; `<0.0.0` with `<1.0.0`): dropped because min_version is None",""),
+ 'C08-6': ("C08","same change as C02-6 (`<=v` minuend, `<v` subtrahend at the same version)",""),
+ 'C09-6': ("C09","an exclusive upper bound and an exclusive lower bound at the same version (`<1.0.0` vs `>1.0.0`)",""),
+ 'C10-6': ("C10","B admitting no version (`<0.0.0-0`, `>1.2.3 <1.2.4-0`) and not inside A: allows_all answers true, allows_any false, difference Some",""),
+ 'C11-6': ("C11","an alternative admitting no version written before the alternative holding the minimum (`<0.0.0-0 || >=2.0.0`): map_while for filter_map",""),
+ 'C12-6': ("C12","two or more build identifiers (`1.2.3+build.5` printed `+build-5`; == ignores build)",""),
+ 'C13-6': ("C13","a bound whose tag has three or more identifiers (`>=1.2.3-alpha.beta.1` printed without the third)","caught by C12 at once; MISSED by C13 (range bounds had at most two identifiers); caught after adding the long-tag families (3..6 identifiers) to C13 and to Engine A's numeric family"),
+ 'C14-6': ("C14","a range whose upper bound is tagged on a higher major with the same minor and patch as a prerelease in the list (`1 - 2` = `<3.0.0-0` with 2.0.0-rc.1)","caught by C01/C02/C03/C07/C11 at once; MISSED by C14 (its oracle took the crate's own satisfies as the meaning of 'admits'); caught after adding the clause `admit` (the selected prerelease must pass the reference gate over the crate's bounds) and pool versions sharing part of a tagged bound's triple"),
+ 'C15-6': ("C15","same change as C02-6 (commutativity of intersect at `<=v` / `<v`)",""),
+ 'C16-6': ("C16","a prerelease with non-zero minor or patch against a release of a higher major with non-zero minor or patch (`1.1.0-1` vs `2.0.1`)",""),
+ 'C17-6': ("C17","an error on a line that begins with whitespace (`\" 1.2\"`: column shifted by the indentation; `\"  foo\"` for Range: subtraction overflow)",""),
+ 'C18-6': ("C18","a component exactly equal to MAX_SAFE_INTEGER (`>=` for `>` in number())",""),
  'C06-5': ("C06","a minuend with an exclusive release lower bound `>a` and a subtrahend that starts exactly at the `-0` floor of the next patch and ends strictly inside (BoundSet::new refuses `>X.Y.Z <X.Y.(Z+1)-0`, difference unwraps)","MISSED at first (no leaf set held both `X.Y.Z` and `X.Y.(Z+1)-0`); caught after adding the -0 floor of the next patch to the exotic and thorough leaf sets; C08 and C15 alarm as well"),
  'C06-4': ("C06","range bounds carrying build metadata in a two-sided difference (derived PartialEq compares build; unwrap on None)",""),
  'C07-4': ("C07","inclusive bounds meeting at one version whose build metadata differs (`>=1.2.3+build.5` with `<=1.2.3`)",""),
